@@ -74,10 +74,29 @@ func (d *DagServ) RemoveMany(_ context.Context, _ []cid.Cid) error {
 
 var V1Builder = cid.V1Builder{Codec: cid.DagProtobuf, MhType: multihash.SHA2_256}
 
+// inlineBuilder addresses blocks of at most limit bytes with identity
+// multihashes (the block is the CID), larger ones with b.
+type inlineBuilder struct {
+	b     cid.Builder
+	limit int
+}
+
+func (i inlineBuilder) GetCodec() uint64 { return i.b.GetCodec() }
+func (i inlineBuilder) WithCodec(c uint64) cid.Builder {
+	return inlineBuilder{b: i.b.WithCodec(c), limit: i.limit}
+}
+func (i inlineBuilder) Sum(data []byte) (cid.Cid, error) {
+	if len(data) > i.limit {
+		return i.b.Sum(data)
+	}
+	return cid.V1Builder{Codec: i.b.GetCodec(), MhType: multihash.IDENTITY}.Sum(data)
+}
+
 type ImportMode struct {
 	Layout    string // balanced | trickle
 	RawLeaves bool
 	CidV1     bool
+	Inline    int // > 0: blocks of at most this many bytes are inlined into identity CIDs (ipfs add --inline)
 }
 
 func (m ImportMode) String() string {
@@ -91,6 +110,9 @@ func (m ImportMode) String() string {
 		s += "+v1"
 	} else {
 		s += "+v0"
+	}
+	if m.Inline > 0 {
+		s += fmt.Sprintf("+inline%d", m.Inline)
 	}
 	return s
 }
@@ -107,6 +129,9 @@ func RefImport(st *store.Store, r io.Reader, chunker string, width int, m Import
 	var cb cid.Builder = cid.V0Builder{}
 	if m.CidV1 {
 		cb = V1Builder
+	}
+	if m.Inline > 0 {
+		cb = inlineBuilder{b: cb, limit: m.Inline}
 	}
 	p := helpers.DagBuilderParams{Maxlinks: width, RawLeaves: m.RawLeaves, CidBuilder: cb, Dagserv: &DagServ{st}}
 	db, err := p.New(spl)
